@@ -369,7 +369,7 @@ def run_fuzz(prop_id, cfg, tier, budget_notes):
                      "VERIF_BIN_DIR": os.path.join(WORK, "bin"), "TMPDIR": os.path.join(WORK, "tmp"),
                      "VERIF_KNOWN": ",".join(k for k, _ in known_findings(prop_id))})
         cmd = ["go", "test", "-tags", TAG, "-run", "^$", "-fuzz", "^" + name + "$", "-fuzztime", "%ds" % secs,
-               "-test.fuzzcachedir", cache, cfg["pkg"]]
+               cfg["pkg"], "-test.fuzzcachedir", cache]
         t0 = time.time()
         rc, out = run_cmd(cmd, HARNESS, env=env, timeout=secs + 600)
         execs = 0
